@@ -148,6 +148,11 @@ impl Report {
         if retries > 0 {
             counters.insert("executions_repeated_after_wall_limit".into(), retries);
         }
+        let (dev, rel) = (crate::run::DEV_RUNS.load(std::sync::atomic::Ordering::SeqCst), crate::run::RELEASE_RUNS.load(std::sync::atomic::Ordering::SeqCst));
+        if dev + rel > 0 {
+            counters.insert("subject-runs:dev-profile-binary".into(), dev);
+            counters.insert("subject-runs:release-profile-binary".into(), rel);
+        }
         let mut dis = Vec::new();
         for (sig, (n, list)) in &self.disagreements {
             let mut files = Vec::new();
